@@ -185,6 +185,10 @@ var vfLines = []orb.LineString{
 	{{0, 0}, {2, 3}, {2, 3}, {4, 1}, {0, 0}},             // repeated vertex, coincident endpoints
 	{{0, 0}, {0.5, 0.25}, {1, -0.25}, {1.5, 2}, {2, 0}, {3, 0.125}, {4, -1}, {5, 0}},
 	{{0, 0}, {3, 4}},
+	{{0, 0}, {10, 0.125}, {5, 0}},                        // doubles back: vertex beyond the END of the kept segment (t > 1 clamp)
+	{{0, 0}, {-3, 0.25}, {4, 0}},                         // vertex before the START of the kept segment (t < 0 clamp)
+	{{0, 0}, {8, 0.5}, {12, -0.25}, {5, 0}, {-2, 0.125}, {6, 0}}, // overshoots on both sides
+	{{0, 0}, {7, 0.25}, {0, 0}},                          // closed: the kept segment is a single point
 }
 
 func vfC12DPBound_N(tier int) int     { return len(vfLines) }
